@@ -16,6 +16,17 @@ def one(m):
         p = os.path.join(tmp, "src", "someip", m["file"])
         src = open(p).read()
         s, e = m["span"]
+        if src[s:e] != m["old"]:
+            # the tree has changed since the sweep (a fix: commit): find the occurrence of the old text nearest to the recorded line
+            cands = []
+            k = src.find(m["old"])
+            while k >= 0:
+                cands.append(k)
+                k = src.find(m["old"], k + 1)
+            if not cands:
+                return dict(m, status="gone")
+            s = min(cands, key=lambda k: abs(src.count("\n", 0, k) + 1 - m["line"]))
+            e = s + len(m["old"])
         open(p, "w").write(src[:s] + m["text"] + src[e:])
         fired, errors = [], []
         for i in range(1, 21):
@@ -29,7 +40,7 @@ def one(m):
     finally:
         shutil.rmtree(tmp, ignore_errors=True)
 
-with ThreadPoolExecutor(max_workers=6) as ex:
+with ThreadPoolExecutor(max_workers=14) as ex:
     out = list(ex.map(one, rows))
 with open(path, "w") as fh:
     for r in out:
